@@ -180,6 +180,8 @@ class Relay:
         self.perm_asked = {}    # peer -> time of the latest CreatePermission request
         self.perm_realm = {}    # tid -> REALM the request carried
         self.perm_answered = set()   # peers whose CreatePermission got a final answer (success or error other than 401/438)
+        self.perm_granted = {}  # peer -> time of the latest successful CreatePermission answer (permission lifetime at the relay: 300 s, RFC 5766 section 8)
+        self.lapsed = []        # Send indications that reached the relay after the peer's permission had lapsed with no request to renew it
         self.early = []         # data that reached the relay while the peer's first request was young and unanswered
         self.active_req = {}    # tid -> peer   (Set Active Destination)
         self.send_req = {}      # tid -> (peer, options)
@@ -214,6 +216,8 @@ class Relay:
                 else:
                     self.delivered.append((peer, d))
                     self.check_held(peer)
+                    if self.compat == RFC5766 and peer in self.perm_granted and self.now - max(self.perm_granted[peer], self.perm_asked.get(peer, 0)) > 300000:
+                        self.lapsed.append(peer)
             elif mtype == 0x0008:
                 pa = first(at, 0x12)
                 self.perm_req[id16] = dec_addr_attr(pa, id16) if pa is not None else None
@@ -267,6 +271,7 @@ class Relay:
             elif mtype == 0x0108 and id16 in self.perm_req:
                 self.perms.add(self.perm_req[id16])
                 self.perm_answered.add(self.perm_req[id16])
+                self.perm_granted[self.perm_req[id16]] = self.now
             elif mtype == 0x0118 and id16 in self.perm_req:
                 # 438, and 401 naming another realm than the request did, ask for a new request; everything else is final
                 e = first(at, 0x09)
@@ -373,6 +378,16 @@ class Script:
 
     def T(self, ms):
         self.ops.append("T:%d" % ms)
+
+    def T_long(self, ms):
+        """[ms] of virtual time the way a running main loop sees it: half-second steps while a request may be retransmitted (its timers then fire when
+        due, not all at once after a jump), then steps of at most 30 s (a periodic GLib source re-arms from the moment it is dispatched)."""
+        for _ in range(18):
+            if ms <= 0:
+                return
+            self.T(min(500, ms)); ms -= 500
+        while ms > 0:
+            self.T(min(30000, ms)); ms -= 30000
 
     def drain(self):
         """three clock jumps of at least the longest retransmission wait: every CreatePermission still pending times out."""
@@ -522,7 +537,8 @@ def gen_expiry(rng, cid):
     peer = rnd_peer(rng)
     if rng.random() < 0.4:
         sc.T(rng.choice([1, 249, 250, 251, 999]))
-    if rng.random() < 0.4:
+    bound = rng.random() < 0.4
+    if bound:
         sc.B(peer)
         sc.R(SERVER, sc.resp(0x0109, 0x0009))
     sc.S(peer, rnd_payload(rng, 20))
@@ -533,6 +549,15 @@ def gen_expiry(rng, cid):
         sc.R(SERVER, sc.resp(0x0108, 0x0008))
     sc.T(rng.choice([2500, 141000]))
     sc.S(peer, rnd_payload(rng, 5))
+    # long sessions: the 240 s refresh must keep coming (the relay forgets a permission 300 s after granting it)
+    for _ in range(0 if bound else rng.choice([0, 1, 2, 3, 5])):      # (the refresh of a channel binding is outside the model)
+        for _ in range(rng.randrange(1, 4)):
+            sc.T_long(rng.choice([60000, 100000, 120000, 200000, 239000]))
+            if rng.random() < 0.3:
+                sc.S(peer, rnd_payload(rng, 7))
+        sc.S(peer, rnd_payload(rng, 9))
+        if rng.random() < 0.8:
+            sc.R(SERVER, sc.resp(0x0108, 0x0008))
     sc.drain()
     return sc.line(cid), "permission-expiry"
 
@@ -777,6 +802,9 @@ def oracle(line, out, kind):
                 return "datagram handed to the base socket for another address than the relay's :: to %s: %s" % (addr_tok(to_), b_.hex()[:80])
             if structured and relay.garbage:
                 return "relay cannot decode what the socket sent :: %s" % relay.garbage[-1].hex()[:120]
+            if structured and relay.lapsed:
+                return ("Send indication for a peer whose permission at the relay has lapsed (300 s since it was granted, no CreatePermission since): "
+                        "a standards-following relay drops it :: peer %s at %d ms" % (addr_tok(relay.lapsed[-1]), relay.now))
             if structured and relay.early:
                 return "data left for a peer whose CreatePermission request was neither answered nor old enough to time out :: peer %s" % addr_tok(relay.early[-1])
             for peer, data in relay.delivered[before:]:
